@@ -4,7 +4,10 @@ For each out/patchK.diff: demo passes on the clean tree; with the patch the work
 then all 20 checks are run on the patched worktree.  Confirmed changes are stored under /verif/seeded/<PID>-K/."""
 import json, os, re, shutil, subprocess, sys
 pid = sys.argv[1]
-wt = "/tmp/wt-" + pid
+# optional second argument: round number (round 2 worktrees are /tmp/wt2-<PID>, stored as <PID>-3..5)
+rnd = int(sys.argv[2]) if len(sys.argv) > 2 else 1
+wt = ("/tmp/wt-" if rnd == 1 else "/tmp/wt%d-" % rnd) + pid
+koff = 0 if rnd == 1 else 2 + 3 * (rnd - 2)
 out = wt + "/out"
 env = dict(os.environ, CARGO_NET_OFFLINE="true")
 def sh(cmd, **kw):
@@ -46,7 +49,7 @@ for k in (1, 2, 3):
     rec["suite_ok"] = failed == 0 and passed >= 246 and "error" not in rs.stdout
     # run all checks against the patched worktree
     fired = {}
-    evd = "/tmp/essb-seed-ev-%s" % pid
+    evd = "/tmp/essb-seed-ev-%s-%d" % (pid, rnd)
     os.makedirs(evd, exist_ok=True)
     for i in range(1, 21):
         P = "C%02d" % i
@@ -61,7 +64,7 @@ for k in (1, 2, 3):
     rec["confirmed"] = bool(rec["demo_clean_passes"] and rec["demo_patched_fails"] and rec["suite_ok"])
     clean()
     if rec["confirmed"]:
-        d = "/verif/seeded/%s-%d" % (pid, k)
+        d = "/verif/seeded/%s-%d" % (pid, k + koff)
         os.makedirs(d, exist_ok=True)
         shutil.copy(patch, d + "/patch.diff")
         shutil.copy("%s/demo%d.rs" % (out, k), d + "/demo.rs")
